@@ -654,6 +654,11 @@ type wgenOpts struct {
 	negInit    bool // allow private-global initialisers that are not plain literals (e.g. -5i)
 	callInSwitch bool // put calls to value-returning helpers into switch clauses (C13: inliner rebuilds such switches)
 	flatRet    bool // early `return` only outside loops and switches (C13: the inliner mishandles nested returns)
+	noSDot     bool // no dot() on signed integer vectors (C03/C04 finding: overflow of the plain int products)
+	noAbsI     bool // no abs() on signed integers (C03 finding: HLSL abs(INT_MIN))
+	noDynPtr   bool // no pointer argument to a dynamically indexed array element (C04 finding: RZSW ternary as a reference)
+	safeDiv    bool // integer / and % only with strictly positive divisors and non-negative dividends (C05: GLSL-undefined otherwise)
+	noFlbU     bool // no firstLeadingBit on unsigned operands (C04 finding: MSL treats all-ones like the signed case)
 }
 
 type wgen struct {
@@ -927,6 +932,11 @@ func (g *wgen) binary(t *wty, depth int) *wexpr {
 	case "/", "%":
 		a := g.expr(t, depth-1)
 		b := g.runtime(t, depth-1) // run-time divisor: WGSL defines x/0 and INT_MIN/-1 at run time
+		if g.o.safeDiv {
+			// (a & 0x7fffffff) op ((b & 0xffff) + 1): defined in every target language
+			a = &wexpr{k: "bin", ty: t, op: "&", args: []*wexpr{a, g.splat(t, 0x7fffffff)}}
+			b = &wexpr{k: "bin", ty: t, op: "+", args: []*wexpr{{k: "bin", ty: t, op: "&", args: []*wexpr{b, g.splat(t, 0xffff)}}, g.splat(t, 1)}}
+		}
 		return mk(op, a, b)
 	case "+", "-", "*":
 		a := g.expr(t, depth-1)
@@ -994,6 +1004,9 @@ func (g *wgen) builtin(t *wty, depth int) *wexpr {
 			if sc.k == "u32" && !g.o.absU {
 				return call("countOneBits", g.runtime(t, depth-1))
 			}
+			if sc.k == "i32" && g.o.noAbsI {
+				return call("countOneBits", g.runtime(t, depth-1))
+			}
 			return call("abs", g.runtime(t, depth-1))
 		case 1:
 			return call("min", g.expr(t, depth-1), g.runtime(t, depth-1))
@@ -1018,6 +1031,9 @@ func (g *wgen) builtin(t *wty, depth int) *wexpr {
 			}
 			return call("countTrailingZeros", g.runtime(t, depth-1))
 		case 7:
+			if sc.k == "u32" && g.o.noFlbU {
+				return call("firstTrailingBit", g.runtime(t, depth-1))
+			}
 			return call("firstLeadingBit", g.runtime(t, depth-1))
 		case 8:
 			return call("firstTrailingBit", g.runtime(t, depth-1))
@@ -1026,7 +1042,7 @@ func (g *wgen) builtin(t *wty, depth int) *wexpr {
 		case 10:
 			return call("select", g.expr(t, depth-1), g.expr(t, depth-1), g.runtime(t.withScalar(tBool), depth-1))
 		default:
-			if t.isScalar() {
+			if t.isScalar() && !(sc.k == "i32" && g.o.noSDot) {
 				n := 2 + g.c.rng.Intn(3)
 				vt := tVec(n, t)
 				return call("dot", g.runtime(vt, depth-1), g.runtime(vt, depth-1))
@@ -1167,7 +1183,7 @@ func (g *wgen) ptrArg(t *wty, used map[string]bool) *wexpr {
 			cs = append(cs, cand{base, v.name})
 		case v.ty.k == "arr" && v.ty.elem.eq(t):
 			var i *wexpr
-			if g.c.chance(0.5) {
+			if g.c.chance(0.5) || g.o.noDynPtr {
 				i = &wexpr{k: "lit", ty: tU32, bits: uint32(g.c.rng.Intn(v.ty.n)), konst: true, small: true}
 			} else {
 				i = &wexpr{k: "bin", ty: tU32, op: "%", args: []*wexpr{g.load(tU32), {k: "lit", ty: tU32, bits: uint32(v.ty.n), konst: true, small: true}}}
@@ -1562,7 +1578,7 @@ func (g *wgen) ptrCallBlock() *wstmt {
 		name := g.fresh("vv")
 		body = append(body, &wstmt{k: "var", name: name, ty: at, e: g.aggregate(at, 2)})
 		var idx *wexpr
-		if g.c.chance(0.5) {
+		if g.c.chance(0.5) || g.o.noDynPtr {
 			idx = &wexpr{k: "lit", ty: tU32, bits: uint32(g.c.rng.Intn(n)), konst: true, small: true}
 		} else {
 			idx = &wexpr{k: "bin", ty: tU32, op: "%", args: []*wexpr{g.load(tU32), {k: "lit", ty: tU32, bits: uint32(n), konst: true, small: true}}}
